@@ -5,7 +5,7 @@ SPEC = {
     "harness": "hx-chain",
     "harness_args": ["C20"],
     "translators": [["const2v_c20.py"]],
-    "level_text": "Proof (Coq): for every sequence of extensions, reorganisations of any depth (to longer or shorter chains), truncations and restarts from genesis, the model of ProposalTable + update_proposal_table/reload_proposal_table + finalize + init_proposal_table keeps the table equal to the main chain's proposal sets in [max 1 (tip+1-w_far), tip] and yields set = union of proposal ids (uncles' included) at distance w_close..w_far from the next block, gap = those closer than w_close (c20_view_eq_spec); dropped ids = old set minus new set (c20_removed_exact); start-up reconstruction = incremental view (c20_init_eq_incremental); membership in the set <=> TwoPhaseCommitVerifier's window walk finds the id (c20_matches_verifier). Window constants are re-extracted from spec/src/consensus.rs on every run and their side condition re-proved (c20_params_ok). Tie: the real chain service (ckb-chain, on-disk DB, restarts, truncate) and the real ProposalTable are run on generated histories; the snapshot's view is compared with the window recomputed from the stored main chain (property predicate) and with the model (vm_compute). Switch-back steps: a branch the node left earlier (from the stash of detached blocks; also after restarts and truncations) is extended on a builder node until the node reorganises back to it, so the attached part of that reorganisation starts with blocks verified before (fork.verified_len() > 0); the view must again equal the on-chain window. The variant that does not re-insert attached blocks verified earlier is refuted on a return to a branch left before (c20_skip_verified_refuted: seeded change C20r4; with nothing skipped it is the code, c20_skip_nothing_is_the_code). Rejected-fork steps: a competing branch with other proposals catches up with the tip as side blocks and its overtaking block breaks a rule (DAO field): the abandoned reorganisation must leave the view equal to the window over the unchanged main chain, checked right after the rejection and after the next main-chain block.",
+    "level_text": "Proof (Coq): for every sequence of extensions, reorganisations of any depth (to longer or shorter chains), truncations and restarts from genesis, the model of ProposalTable + update_proposal_table/reload_proposal_table + finalize + init_proposal_table keeps the table equal to the main chain's proposal sets in [max 1 (tip+1-w_far), tip] and yields set = union of proposal ids (uncles' included) at distance w_close..w_far from the next block, gap = those closer than w_close (c20_view_eq_spec); dropped ids = old set minus new set (c20_removed_exact); start-up reconstruction = incremental view (c20_init_eq_incremental); membership in the set <=> TwoPhaseCommitVerifier's window walk finds the id (c20_matches_verifier). Window constants are re-extracted from spec/src/consensus.rs on every run and their side condition re-proved (c20_params_ok). Tie: the real chain service (ckb-chain, on-disk DB, restarts, truncate) and the real ProposalTable are run on generated histories; the snapshot's view is compared with the window recomputed from the stored main chain (property predicate) and with the model (vm_compute). Switch-back steps: a branch the node left earlier (from the stash of detached blocks; also after restarts and truncations) is extended on a builder node until the node reorganises back to it, so the attached part of that reorganisation starts with blocks verified before (fork.verified_len() > 0); the view must again equal the on-chain window. The variant that does not re-insert attached blocks verified earlier is refuted on a return to a branch left before (c20_skip_verified_refuted: seeded change C20r4; with nothing skipped it is the code, c20_skip_nothing_is_the_code). Rejected-fork steps: a competing branch with other proposals catches up with the tip as side blocks and its overtaking block breaks a rule (DAO field): the abandoned reorganisation must leave the view equal to the window over the unchanged main chain, checked right after the rejection and after the next main-chain block. Verifier probe: five transactions whose REAL short ids are proposed in the histories; after every step the contextual block verifier with every rule but the two-phase commit switched off is asked about a next block committing each of them, and its verdict must equal membership in the view's committable set and in the window recomputed from the chain (the agreement clause of the property, checked on the implementation; seeded change C20r6).",
     "level_note": "Trusted: Coq kernel; hand-written model Chain/Proposal.v (correspondence-checked); translator tools/const2v_c20.py; RocksDB reads. Hypotheses of the theorems: 1 <= w_close <= w_far (re-proved for the extracted constants) and the genesis block proposes nothing (checked by the harness for the consensus it uses). ProposalShortId collisions are treated as equal ids, as the code does. The ids handed to the tx-pool as 'detached' are not observed on the implementation (finalize's returned set is, through the direct ProposalTable stream).",
     "trusted_base": COMMON_TB + [
         "hand-written model coq/Chain/Proposal.v of util/proposal-table/src/lib.rs, chain/src/verify.rs (update/reload_proposal_table), shared/src/shared_builder.rs (init_proposal_table), TwoPhaseCommitVerifier's walk",
